@@ -400,3 +400,166 @@ def _paa_boundaries(B):
     bnd = lambda x: z3.ToReal(x) * ell
     return [("bnd(0)=0", bnd(z3.IntVal(0)) == 0), ("recurrence", bnd(f + 1) == bnd(f) + ell), ("tiles-the-series", bnd(m) == z3.ToReal(L)),
             ("strictly-increasing", Implies(f < g, bnd(f) < bnd(g))), ("frame-length-at-least-one", ell >= 1)]
+
+
+# ----------------------------------------------------------------------------- padding / truncation of panels with UNEQUAL lengths
+TRUNC = "sktime/transformations/panel/truncation.py"
+VAL_PANEL = "sktime/utils/validation/panel.py"
+
+
+def nested_frame(B, name="X"):
+    """abstract nested DataFrame: n instances x c columns, cell (i, j) is a series of its OWN length len_ij with arbitrary values.
+    Supports what the padder / truncator use: X.shape, X.iloc[i, :].values"""
+    n, c = B.int("n_instances", 1), B.int("n_columns", 1)
+    Lc = z3.Function("cell_length", z3.IntSort(), z3.IntSort(), z3.IntSort())
+    V = z3.Function("cell_value", z3.IntSort(), z3.IntSort(), z3.IntSort(), z3.RealSort())
+    B.I.ctx.inputs["cell_length"] = Lc
+    B.I.ctx.inputs["cell_value"] = V
+    i_, j_ = z3.Int("ci"), z3.Int("cj")
+    B.assume(z3.ForAll([i_, j_], Lc(i_, j_) >= 0))
+
+    def cell(i, j):
+        ln = Lc(Z(i), Z(j))
+        return SSeries(SArr((ln,), lambda t: t, "int", "RangeIndex", closed=(0, 1)),
+                       SArr((ln,), lambda t: V(Z(i), Z(j), Z(t)), "real", "ndarray"))
+    X = Opaque("nested frame " + name)
+
+    def iloc_get(I, o, idx):
+        if not (isinstance(idx, SList) and idx.kind == "tuple" and len(idx.items) == 2):
+            raise Undecided("nested frame: only X.iloc[i, :] is modelled")
+        i, sl = idx.items
+        row = Opaque("row of the nested frame", prov=("row", X, i))
+        row.attrs = {"values": SArr((c,), lambda j: cell(i, j), "obj", "ndarray")}
+        return row
+    ix = Opaque("iloc")
+    ix.getitem = iloc_get
+    X.attrs = {"shape": SList([n, c], "tuple"), "iloc": ix}
+    X.ghost = dict(n=n, c=c, Lc=Lc, V=V, cell=cell)
+    return X
+
+
+def _root_ghost(key):
+    a = getattr(_cur(), "root_args", None)
+    s = getattr(a, "self", None) if a is not None else None
+    g = getattr(s, "ghost", None)
+    return g.get(key) if isinstance(g, dict) else None
+
+
+contract(f"{VAL_PANEL}::check_X", "C14", cases=["-"], assumed=True, inputs=lambda B, case: {},
+         applicable=lambda A: isinstance(A.X, Opaque) and isinstance(getattr(A.X, "ghost", None), dict) and "Lc" in A.X.ghost,
+         returns=lambda A: A.X,
+         notes=["ASSUMED (nested-frame input): check_X(X, coerce_to_pandas=True) accepts a nested DataFrame with at least one instance and "
+                "column and returns it unchanged"])
+
+contract(f"{PAD}::_get_max_length", "C14", cases=["-"], assumed=True, inputs=lambda B, case: {},
+         applicable=lambda A: _root_ghost("MAXLEN") is not None,
+         returns=lambda A: _root_ghost("MAXLEN"),
+         notes=["ASSUMED: _get_max_length(rows) is the largest cell length of the panel (nested max over map objects; bounded tier)"])
+
+contract(f"{TRUNC}::TruncationTransformer.get_min_length", "C14", cases=["-"], assumed=True, inputs=lambda B, case: {},
+         applicable=lambda A: _root_ghost("MINLEN") is not None,
+         returns=lambda A: _root_ghost("MINLEN"),
+         notes=["ASSUMED: get_min_length(rows) is the smallest cell length of the panel (bounded tier)"])
+
+
+def _extreme(B, X, name, is_max):
+    g = X.ghost
+    m = B.int(name, 0)
+    i_, j_ = z3.Int("ei"), z3.Int("ej")
+    rng = z3.And(i_ >= 0, i_ < Z(g["n"]), j_ >= 0, j_ < Z(g["c"]))
+    B.assume(z3.ForAll([i_, j_], z3.Implies(rng, g["Lc"](i_, j_) <= m if is_max else g["Lc"](i_, j_) >= m)))
+    wi, wj = B.int(name + "_at_i", 0), B.int(name + "_at_j", 0)          # attained somewhere
+    B.assume(And(wi < Z(g["n"]), wj < Z(g["c"]), g["Lc"](wi, wj) == m))
+    return m
+
+
+def _padt_inputs(B, case):
+    I = B.I
+    ok, cls = I.mod_global(I.src.module("sktime.transformations.panel.padder"), "PaddingTransformer")
+    obj = SObj(cls)
+    X = nested_frame(B)
+    P = B.int("pad_length_", 0)
+    obj.attrs.update(_is_fitted=True, pad_length=None, pad_length_=P, fill_value=B.real("fill_value"))
+    obj.ghost = dict(X=X, MAXLEN=_extreme(B, X, "max_length", True), P=P)
+    return {"self": obj, "X": X, "y": None}
+
+
+def _cellwise(A, r, spec_len, spec_val):
+    """r = DataFrame(rows); row i is a Series of c cells; cell (i, j) has the specified length and values"""
+    g = A.X.ghost
+    if not (isinstance(r, Opaque) and r.prov and r.prov[0] == "rows" and isinstance(r.prov[1], SArr)):
+        return False
+    rows = r.prov[1]
+    ctx = _cur().ctx
+    i, j = ctx.fresh_int("inst"), ctx.fresh_int("col")
+    ctx.assume(And(i >= 0, i < Z(g["n"]), j >= 0, j < Z(g["c"])))
+    row = rows.fn(i)
+    if not isinstance(row, SSeries):
+        return False
+    cell = row.values.fn(j)
+    vals = cell.values if isinstance(cell, SSeries) else cell
+    if not isinstance(vals, SArr) or vals.ndim != 1:
+        return False
+    ln = spec_len(i, j)
+    return And(Eq(rows.len, g["n"]), Eq(row.values.len, g["c"]), Eq(vals.len, ln),
+               ForAll(lambda t: Eq(vals.fn(t), spec_val(i, j, t)), 0, ln, "t"))
+
+
+def _padt_post(A, r):
+    g = A.X.ghost
+    P, fill = A.self.attrs["pad_length_"], A.self.attrs["fill_value"]
+    return _cellwise(A, r, lambda i, j: P, lambda i, j, t: z3.If(Z(t) < g["Lc"](i, j), g["V"](i, j, Z(t)), Z(fill)))
+
+
+contract(f"{PAD}::PaddingTransformer.transform", "C14,C16,C12", cases=["-"], inputs=_padt_inputs,
+         raises=[("ValueError", lambda A: Z(A.self.ghost["MAXLEN"]) > Z(A.self.attrs["pad_length_"]))],
+         ensures=[("every-cell-padded-to-the-fitted-length-own-values-then-fill-value", _padt_post)],
+         frame=lambda A: [A.self, A.X],
+         notes=["unequal-length panel: every cell has its own symbolic length; one row per instance in input order, one cell per column"])
+
+
+def _padfit_inputs(B, case):
+    I = B.I
+    ok, cls = I.mod_global(I.src.module("sktime.transformations.panel.padder"), "PaddingTransformer")
+    given = case == "given"
+    obj = I.instantiate(cls, [], {"pad_length": B.int("pad_length", 0) if given else None, "fill_value": B.real("fill_value")})
+    X = nested_frame(B)
+    obj.ghost = dict(X=X, MAXLEN=_extreme(B, X, "max_length", True))
+    return {"self": obj, "X": X, "y": None}
+
+
+contract(f"{PAD}::PaddingTransformer.fit", "C14", cases=["longest", "given"], inputs=_padfit_inputs,
+         ensures=[("pad-length-is-the-requested-or-the-longest-length",
+                   lambda A, r: And(r is A.self, A.self.attrs.get("_is_fitted") is True,
+                                    Eq(A.self.attrs["pad_length_"], A.self.attrs["pad_length"] if A.self.attrs["pad_length"] is not None else A.self.ghost["MAXLEN"])))],
+         frame=lambda A: [A.X])
+
+
+def _trt_inputs(B, case):
+    I = B.I
+    ok, cls = I.mod_global(I.src.module("sktime.transformations.panel.truncation"), "TruncationTransformer")
+    obj = SObj(cls)
+    X = nested_frame(B)
+    lo = B.int("lower_", 0)
+    up = B.int("upper", 0) if case == "range" else None
+    obj.attrs.update(_is_fitted=True, lower=lo, lower_=lo, upper=up, min_length=lo)
+    obj.ghost = dict(X=X, MINLEN=_extreme(B, X, "min_length", False))
+    return {"self": obj, "X": X, "y": None}
+
+
+def _trt_post(A, r):
+    g = A.X.ghost
+    lo, up = Z(A.self.attrs["lower_"]), A.self.attrs["upper"]
+    if up is None:
+        return _cellwise(A, r, lambda i, j: ops.simp(lo), lambda i, j, t: g["V"](i, j, Z(t)))
+    ln = ops.simp(z3.If(Z(up) - lo > 0, Z(up) - lo, 0))
+    return _cellwise(A, r, lambda i, j: ln, lambda i, j, t: g["V"](i, j, ops.simp(lo + Z(t))))
+
+
+contract(f"{TRUNC}::TruncationTransformer.transform", "C14,C16,C12", cases=["first-k", "range"], inputs=_trt_inputs,
+         pre=lambda A: True if A.self.attrs["upper"] is None else Z(A.self.attrs["upper"]) <= Z(A.self.ghost["MINLEN"]),
+         raises=[("ValueError", lambda A: Z(A.self.ghost["MINLEN"]) < Z(A.self.attrs["lower_"]))],
+         ensures=[("every-cell-cut-to-the-fitted-range", _trt_post)],
+         frame=lambda A: [A.self, A.X],
+         notes=["unequal-length panel; with `upper` the requested range must lie inside the shortest series (otherwise pandas raises "
+                "IndexError -- not part of the contract's domain)"])
